@@ -1636,6 +1636,29 @@ pub fn c16(r: &mut Rng, tier: &str) -> Vec<Case> {
                 }
                 cases.push(c);
             }
+            // the listing of an instruction that has just been EXECUTED (with any diagnostic switch on): the text still
+            // follows the present registers and memory, not what they were when the instruction was fetched
+            for k in 0..(if quick(tier) { 4 } else { 24 }) {
+                let mut s = rand_state(r);
+                s.halt = false;
+                s.int = None;
+                s.nmi = false;
+                let m = [2u8, 3, 15, 0][k % 4];
+                s.dbg = [m & 1 != 0, m & 2 != 0, m & 4 != 0, m & 8 != 0];
+                let code = encode(page, op, ob[k % 6], ob[(k / 6) % 6], v8(r));
+                s = with_code(s, &code);
+                let pc = s.pc;
+                let mut c = Case::new(format!("{}/executed{}", tagof(page, op), k % 4));
+                c.key = tagof(page, op);
+                c.push(Cmd::SN(Box::new(s)), P_NONE);
+                c.push(Cmd::X, P_NONE);
+                c.push(Cmd::DA(pc), p_mem());
+                c.push(Cmd::HostReg([2u8, 0, 1, 3, 4][k % 5], v16(r)), P_NONE);
+                c.push(Cmd::DA(pc), p_mem());
+                c.push(Cmd::X, P_NONE);
+                c.push(Cmd::DA(pc), p_mem());
+                cases.push(c);
+            }
         }
     }
     cases
@@ -2170,9 +2193,6 @@ pub fn swr_linked_cases(r: &mut Rng, prop: &str, rows: &[(Page, u8)], nblk: u32)
     let deltas: [u16; 5] = [0, 1, 0xFFFF, 2, 0xFFFE];
     let mut cases = vec![];
     for &(page, op) in rows {
-        if is_block_repeat(page, op) {
-            continue;
-        }
         let mut s = state_for(r, page, op);
         s.top = 0xFFFF;
         s.rom = None;
@@ -2182,15 +2202,42 @@ pub fn swr_linked_cases(r: &mut Rng, prop: &str, rows: &[(Page, u8)], nblk: u32)
         if s.seed == 0 {
             s.seed = SEEDS[1 + op as usize % 5];
         }
-        // every row gets every pair once, the delta and the block rotate
-        for (pi, &(w, l)) in pairs.iter().enumerate() {
-            let d = deltas[(pi + op as usize) % 5];
-            let fmask = if prop == "C10" { 0xFF } else if is_bit_row(page, op) { 0x53 } else { 0xD7 };
-            let mut c = Case::new(format!("sweep-pair/{}{}/{}", w, l, tagof(page, op)));
-            c.key = tagof(page, op);
-            c.push(sbox(s.clone()), P_NONE);
-            c.push(Cmd::SWR { which: w, blk: r.below(nblk as u64) as u32, nblk, fmask, link: Some((l, d)) }, Proj { swr: bits, ..NONE });
-            cases.push(c);
+        if is_block_repeat(page, op) {
+            s.set_pair(B, 1 + r.below(5) as u16);
+        }
+        // every pair in every relation; the block of values rotates
+        for &(w, l) in pairs.iter() {
+            if is_block_repeat(page, op) && (w == 0 || l == 0) {
+                continue;
+            }
+            for (di, &d) in deltas.iter().enumerate() {
+                let fmask = if prop == "C10" { 0xFF } else if is_bit_row(page, op) { 0x53 } else { 0xD7 };
+                let mut c = Case::new(format!("sweep-pair/{}{}/{}", w, l, tagof(page, op)));
+                c.key = tagof(page, op);
+                // the incoming flags: all set, all clear, or the row's random ones
+                let mut s = s.clone();
+                match (di + w as usize + op as usize) % 3 {
+                    0 => s.regs[F] = 0xFF,
+                    1 => s.regs[F] = 0x00,
+                    _ => {}
+                }
+                if is_block_repeat(page, op) || (page == Page::ED && matches!(op, 0xA0 | 0xA8 | 0xA1 | 0xA9)) {
+                    s.regs[F] = if di % 2 == 0 { 0xFF } else { 0x00 };
+                    if d == 0 && di == 0 {
+                        // the same relation once more with the flags the other way round
+                        let mut t = s.clone();
+                        t.regs[F] = 0x00;
+                        let mut c2 = Case::new(format!("sweep-pair/{}{}/{}", w, l, tagof(page, op)));
+                        c2.key = tagof(page, op);
+                        c2.push(sbox(t), P_NONE);
+                        c2.push(Cmd::SWR { which: w, blk: r.below(nblk as u64) as u32, nblk, fmask, link: Some((l, d)) }, Proj { swr: bits, ..NONE });
+                        cases.push(c2);
+                    }
+                }
+                c.push(sbox(s.clone()), P_NONE);
+                c.push(Cmd::SWR { which: w, blk: r.below(nblk as u64) as u32, nblk, fmask, link: Some((l, d)) }, Proj { swr: bits, ..NONE });
+                cases.push(c);
+            }
         }
     }
     cases
@@ -2224,7 +2271,7 @@ pub fn sweeps_for(prop: &str, r: &mut Rng, tier: &str) -> Vec<Case> {
     match prop {
         "C01" | "C02" | "C03" | "C04" => {
             let mut v = swr_cases(r, prop, &rows, &all, n);
-            v.extend(swr_linked_cases(r, prop, &rows, if quick(tier) { 16 } else { 1 }));
+            v.extend(swr_linked_cases(r, prop, &rows, if quick(tier) { 128 } else { 8 }));
             if prop != "C02" {
                 v.extend(swr_pc_cases(r, prop, 5 * n, &[0xFFFF]));
             }
@@ -2406,7 +2453,7 @@ pub fn hist_for(prop: &str, r: &mut Rng, tier: &str) -> Vec<Case> {
     let (n, len): (usize, usize) = match prop {
         "C07" | "C08" | "C20" => (if q { 300 } else { 6000 }, 30),
         "C11" | "C13" | "C14" => (if q { 400 } else { 8000 }, 24),
-        "C12" => (if q { 200 } else { 4000 }, 40),
+        "C12" => (if q { 300 } else { 6000 }, 40),
         "C15" | "C16" => (if q { 300 } else { 6000 }, 24),
         "C17" => (if q { 300 } else { 6000 }, 40),
         "C18" => (if q { 200 } else { 4000 }, 300),
@@ -2442,6 +2489,13 @@ pub fn hist_for(prop: &str, r: &mut Rng, tier: &str) -> Vec<Case> {
                 let pj = p_ctl();
                 (vec![("X", 12), ("I", 4), ("N", 2), ("NN", 2), ("II", 1), ("WBPC", 2), ("PC", 1), ("REG", 1), ("T", 1)],
                  HistProj { x: pj, t: Proj { slice: false, ..pj }, v, d: mem, d_every: 8 })
+            }
+            // the model provably does not see a masked request (C12_step, C12_timed): the implementation is compared with
+            // it on everything but the latch itself, over programs of control instructions with requests in between
+            "C12" => {
+                let pj = Proj { r: false, dbg: 0, latch: false, slice: true, ..FULL };
+                (vec![("X", 14), ("T", 3), ("I", 6), ("II", 1), ("N", 1), ("WBPC", 1), ("REG", 1)],
+                 HistProj { x: pj, t: pj, v, d: mem, d_every: 8 })
             }
             "C15" => (vec![("X", 8), ("DAPC", 0), ("DA", 8), ("WBPC", 3), ("WB", 2), ("PC", 2), ("I", 1), ("REG", 1)],
                       HistProj { x: Proj { pc: true, ..NONE }, t: P_NONE, v: Proj { other: true, da_size_only: true, ..NONE }, d: P_NONE, d_every: 0 }),
@@ -2528,6 +2582,7 @@ pub fn hist_line_proj(prop: &str, cmd: &Cmd) -> Proj {
         "C15" => (Proj { pc: true, ..NONE }, P_NONE, Proj { other: true, da_size_only: true, ..NONE }, P_NONE),
         "C16" => (P_NONE, P_NONE, v, P_NONE),
         "C17" => { let pj = Proj { r: false, dbg: 0, slice: true, ..FULL }; (pj, pj, v, mem) }
+        "C12" => { let pj = Proj { r: false, dbg: 0, latch: false, slice: true, ..FULL }; (pj, pj, v, mem) }
         "C18" => (P_NONE, Proj { slice: true, ..NONE }, v, P_NONE),
         _ => (P_NONE, P_NONE, P_NONE, P_NONE),
     };
@@ -2589,6 +2644,238 @@ pub fn straddle_cases(r: &mut Rng, prop: &str, tier: &str) -> Vec<Case> {
                 }
                 cases.push(c);
             }
+        }
+    }
+    cases
+}
+
+
+// ---------------------------------------------------------------------------------------------
+// every encoding met by an interrupt: the row's instruction is the one that is interrupted (at PC), the one
+// the request supplies, or the first instruction of the service routine
+// ---------------------------------------------------------------------------------------------
+pub fn ctl_cases(r: &mut Rng, prop: &str, tier: &str) -> Vec<Case> {
+    let (px, pd): (Proj, Proj) = match prop {
+        "C01" => (p_regs(), p_mem()),
+        "C03" => (Proj { pc: true, sp: true, ..NONE }, p_mem()),
+        "C04" => (Proj { cyc: true, ..NONE }, P_NONE),
+        "C05" => (Proj { r: false, dbg: 1, latch: false, mode: Mode::Unknown, ..FULL }, p_mem()),
+        "C06" => (Proj { regs: true, sp: true, pc: true, ctl: true, ..NONE }, p_mem()),
+        "C09" => (Proj { fmask: 0xFF, ..p_regs() }, p_mem()),
+        "C15" => (Proj { pc: true, sp: true, ..NONE }, p_mem()),
+        _ => return vec![],
+    };
+    let rows: Vec<(Page, u8)> = if prop == "C09" {
+        [0xF5u8, 0xF1, 0x08, 0xD9, 0xC5, 0xE5, 0xE1, 0xEB, 0xE3].iter().map(|o| (Page::Base, *o)).collect()
+    } else {
+        all_rows()
+    };
+    let nvar = if quick(tier) { 10 } else { 30 };
+    let mut cases = vec![];
+    for (ri, &(page, op)) in rows.iter().enumerate() {
+        for v in 0..nvar {
+            let v = if quick(tier) { v } else { v % 10 };
+            let mut s = state_for(r, page, op);
+            s.top = 0xFFFF;
+            s.rom = None;
+            s.seed = SEEDS[1 + (ri + v) % 5];
+            s.halt = false;
+            s.int = None;
+            s.nmi = false;
+            // keep PC, SP and the vectors apart
+            s.pc = 0x0200 + (s.pc & 0x7FFF);
+            s.sp = 0xF000 | (s.sp & 0x0FFE);
+            let code = encode(page, op, v8(r) | 1, v8(r) | 1, v8(r) | 1);
+            let len: usize = match page { Page::Base => 3, Page::DDCB | Page::FDCB => 4, _ => 4 };
+            s.ovr.clear();
+            let pc = s.pc;
+            s.poke(pc, &code[..len]);
+            // what lies below PC is sometimes an LD A,I / LD A,R, a DI or an EI (the previous instruction)
+            match (ri + v) % 5 {
+                0 => s.poke(pc.wrapping_sub(2), &[0xED, 0x57]),
+                1 => s.poke(pc.wrapping_sub(2), &[0xED, 0x5F]),
+                2 => s.poke(pc.wrapping_sub(1), &[0xF3]),
+                3 => s.poke(pc.wrapping_sub(1), &[0xFB]),
+                _ => {}
+            }
+            let first = code[0];
+            let rst = r.pick(&RST_OPS);
+            let mut at_vector = |s: &mut St, a: u16| s.poke(a, &code[..len]);
+            match v {
+                // NMI alone: the row is the first instruction of the routine
+                0 => { s.nmi = true; s.iff1 = r.bool(); at_vector(&mut s, 0x0066); }
+                // accepted mode 0: the request supplies the row's own first byte (one-byte rows are executed that way)
+                1 => { s.iff1 = true; s.iff2 = true; s.im = 0; s.int = Some(first); }
+                // accepted mode 0 with a restart; the byte at PC is the same restart when the row is one
+                2 => { s.iff1 = true; s.iff2 = true; s.im = 0; s.int = Some(if RST_OPS.contains(&first) { first } else { rst });
+                       let t = (s.int.unwrap() & 0x38) as u16; at_vector(&mut s, t); }
+                // accepted mode 1 (the byte is irrelevant): the row at 0x0038
+                3 => { s.iff1 = true; s.iff2 = true; s.im = 1; s.int = Some(v8(r)); at_vector(&mut s, 0x0038); }
+                // accepted mode 2: the row at the routine the table points to
+                4 => { s.iff1 = true; s.iff2 = true; s.im = 2; let b = v8(r) & 0xFE; s.int = Some(b); s.regs[I] = 0x80;
+                       s.poke(0x8000 | b as u16, &[0x00, 0x90]); at_vector(&mut s, 0x9000); }
+                // NMI and an enabled request in the same step
+                5 => { s.nmi = true; s.iff1 = true; s.iff2 = true; s.im = (ri % 3) as u8; s.int = Some(if ri % 2 == 0 { rst } else { first });
+                       s.regs[I] = 0x80; at_vector(&mut s, 0x0066); }
+                // halted: woken by NMI, by an enabled request, by both; idle with a masked request
+                6 => { s.halt = true; s.nmi = true; at_vector(&mut s, 0x0066); }
+                7 => { s.halt = true; s.iff1 = true; s.iff2 = true; s.im = 1; s.int = Some(v8(r)); at_vector(&mut s, 0x0038); }
+                8 => { s.halt = true; s.nmi = true; s.iff1 = true; s.iff2 = true; s.im = (ri % 3) as u8; s.int = Some(rst); s.regs[I] = 0x80;
+                       at_vector(&mut s, 0x0066); }
+                _ => { s.halt = ri % 2 == 0; s.iff1 = false; s.iff2 = true; s.int = Some(if ri % 3 == 0 { first } else { rst }); }
+            }
+            // the diagnostic switches only observe: any combination may be on
+            let m = r.below(16) as u8;
+            if (ri + v) % 3 == 0 {
+                s.dbg = [m & 1 != 0, m & 2 != 0, m & 4 != 0, m & 8 != 0];
+            }
+            let mut c = Case::new(format!("{}/irq{}", tagof(page, op), v));
+            c.key = tagof(page, op);
+            c.push(sbox(s), P_NONE);
+            c.push(Cmd::X, px);
+            if pd != P_NONE {
+                c.push(Cmd::D, pd);
+            }
+            // one more step: what the first one left behind (enable state, return address) shows here
+            c.push(Cmd::X, px);
+            cases.push(c);
+        }
+    }
+    cases
+}
+
+
+// ---------------------------------------------------------------------------------------------
+// long histories on one object: counters and depths the library might keep wrap or saturate only here
+// ---------------------------------------------------------------------------------------------
+pub fn long_cases(r: &mut Rng, prop: &str, tier: &str) -> Vec<Case> {
+    let mut cases = vec![];
+    let reps = if quick(tier) { 1 } else { 4 };
+    for rep in 0..reps {
+        match prop {
+            // a CPU that stays halted for a long time: every step 4 T-states, nothing changes
+            "C04" | "C14" | "C18" => {
+                for (iff1, req) in [(false, None), (false, Some(0xFFu8)), (true, None)] {
+                    let mut s = rand_state(r);
+                    s.seed = SEEDS[1 + rep % 5];
+                    s.halt = true;
+                    s.nmi = false;
+                    s.iff1 = iff1;
+                    s.int = req;
+                    let pc = s.pc;
+                    s.poke(pc, &[0x76]);
+                    let mut c = Case::new(format!("long/halt{}", iff1 as u8));
+                    c.key = "long-halt".into();
+                    c.push(Cmd::SN(Box::new(s)), P_NONE);
+                    let pj = match prop {
+                        "C04" => Proj { cyc: true, ..NONE },
+                        "C18" => Proj { slice: true, ..NONE },
+                        _ => Proj { cyc: true, ..p_ctl() },
+                    };
+                    for k in 0..700 {
+                        c.push(if prop == "C18" { Cmd::T } else { Cmd::X }, pj);
+                        if k == 300 && req.is_none() && !iff1 {
+                            c.push(Cmd::I(0xE7), P_NONE);
+                        }
+                    }
+                    // then it is woken
+                    c.push(Cmd::N, P_NONE);
+                    c.push(if prop == "C18" { Cmd::T } else { Cmd::X }, pj);
+                    c.push(Cmd::D, p_mem());
+                    cases.push(c);
+                }
+            }
+            // deep call nesting, many interrupts served, on one object
+            "C03" | "C11" | "C13" | "C17" | "C06" => {
+                let pj = if prop == "C17" || prop == "C06" { Proj { r: false, dbg: 0, ..FULL } } else { p_ctl() };
+                // (a) a routine that calls itself: 400 nested CALLs, the stack runs through memory
+                let mut s = rand_state(r);
+                s.seed = 0;
+                s.halt = false; s.nmi = false; s.int = None;
+                s.pc = 0x0100;
+                s.sp = 0xF000;
+                s.poke(0x0100, &[0x00, 0xCD, 0x00, 0x01]);
+                let mut c = Case::new("long/recursion".into());
+                c.key = "long-recursion".into();
+                c.push(Cmd::SN(Box::new(s)), P_NONE);
+                for _ in 0..800 {
+                    c.push(Cmd::X, pj);
+                }
+                c.push(Cmd::D, p_mem());
+                cases.push(c);
+                // (b) 300 interrupts served (mode 1, routine EI; RETI), then 300 NMIs (routine RETN), with requests
+                // that are not returned from in between (routine EI; JR back to the main loop)
+                for variant in 0..3 {
+                    let mut s = rand_state(r);
+                    s.seed = 0;
+                    s.halt = false; s.nmi = false; s.int = None;
+                    s.im = 1; s.iff1 = true; s.iff2 = true;
+                    s.pc = 0x0100;
+                    s.sp = 0xF000;
+                    s.poke(0x0100, &[0x00, 0x18, 0xFD]);                       // main: NOP ; JR main
+                    match variant {
+                        0 => s.poke(0x0038, &[0xFB, 0xED, 0x4D]),               // EI ; RETI
+                        1 => s.poke(0x0038, &[0xFB, 0xC3, 0x00, 0x01]),         // EI ; JP main (never returns: the stack grows)
+                        _ => s.poke(0x0038, &[0xFB, 0xC9]),                     // EI ; RET
+                    }
+                    s.poke(0x0066, &[0xED, 0x45]);                              // RETN
+                    let mut c = Case::new(format!("long/interrupts{}", variant));
+                    c.key = "long-interrupts".into();
+                    c.push(Cmd::SN(Box::new(s)), P_NONE);
+                    for k in 0..300 {
+                        c.push(Cmd::I(v8(r)), P_NONE);
+                        for _ in 0..4 {
+                            c.push(Cmd::X, pj);
+                        }
+                        if k % 3 == 2 {
+                            c.push(Cmd::N, P_NONE);
+                            c.push(Cmd::X, pj);
+                            c.push(Cmd::X, pj);
+                        }
+                    }
+                    c.push(Cmd::D, p_mem());
+                    cases.push(c);
+                }
+            }
+            // exactly 256 and exactly 65,536 effective stores between two identical host calls
+            "C20" | "C08" | "C07" => {
+                for n in [255usize, 256, 65535, 65536] {
+                    let top: u16 = 0x03FF;
+                    let mut s = St::default();
+                    s.top = top;
+                    s.seed = SEEDS[1 + rep % 5];
+                    if prop == "C07" {
+                        s.rom = Some((0x0100, 0x017F));
+                    }
+                    let v = Proj { other: true, ..NONE };
+                    let mut c = Case::new(format!("long/stores{}", n));
+                    c.key = "long-stores".into();
+                    c.push(Cmd::SN(Box::new(s)), P_NONE);
+                    let (a, b) = (0x0200usize, 0x027F);
+                    let first = |c: &mut Case| {
+                        c.push(Cmd::CL(a, b), P_NONE);
+                        c.push(Cmd::SL(a, b), v);
+                        c.push(Cmd::LB(0x0300, Some(16), 0x33), v);
+                        c.push(Cmd::ROM(0x0100, 0x017F), P_NONE);
+                        c.push(Cmd::D, p_mem());
+                    };
+                    first(&mut c);
+                    for k in 0..n {
+                        // stores all over the memory, the slice included; word stores count twice
+                        let addr = ((k * 37) % 0x0400) as u16;
+                        if addr >= 0x0100 && addr < 0x0180 {
+                            c.push(Cmd::WB(0x0280 + (k % 64) as u16, (k as u8) | 1), P_NONE);
+                        } else {
+                            c.push(Cmd::WB(addr, (k as u8) | 1), P_NONE);
+                        }
+                    }
+                    first(&mut c);
+                    c.push(Cmd::WB(0x0140, 0x5A), P_NONE);
+                    c.push(Cmd::RB(0x0140), v);
+                    cases.push(c);
+                }
+            }
+            _ => {}
         }
     }
     cases
